@@ -196,6 +196,14 @@ pub fn oracle_c01(ctors: &[Ctor]) -> Verdict {
             let r = if with { ShapeReader::with_shx(chunked(&shp), chunked(&shx)) } else { ShapeReader::new(chunked(&shp)) };
             routes.push((format!("chunk3/generic/seq/shx={}", with), r.map_err(|e| show_err(&e)).and_then(|r| collect_as::<Shape, _>(r))));
         }
+        // random access first, then a sequential read on the same reader
+        routes.push(("cursor/generic/nth-then-seq".into(), {
+            let mut r = open(true);
+            for i in [n - 1, n / 2] {
+                let _ = r.read_nth_shape(i);
+            }
+            collect_as::<Shape, _>(r)
+        }));
         routes.push(("cursor/generic/nth".into(), nth_as::<Shape, _>(open(true), n)));
         routes.push(("cursor/typed/nth".into(), with_type!(tn, T => nth_as::<T, _>(open(true), n), else Err("bad type".into()))));
         // on disk, by path
